@@ -127,7 +127,13 @@ WIDE_ENV_VALUES = {
 
 def h_conf(eng, case):
     import ndn.client_conf as cc
-    if case.get('links'):
+    if case.get('odd'):
+        # values with characters that mean something to configuration-file parsers (blank + ';' / '#', '=', '%', ':')
+        FILE_VALUES = {'transport': [None, 'unix:///srv/run ;1/nfd.sock', 'unix:///srv/a=b/%41.sock'],
+                       'pib': [None, 'pib-sqlite3:/data/keys #1', 'pib-sqlite3:/data/k;2'],
+                       'tpm': ['tpm-file:/x/tpm ;old', 'tpm-file:/x/t#3', None]}
+        ENV_VALUES = {'transport': [None], 'pib': [None], 'tpm': [None, 'tpm-file:/env/t #4']}
+    elif case.get('links'):
         # candidate files that are symbolic links: small value menus (relative store locations are what matters)
         FILE_VALUES = {'transport': [None], 'pib': [None, 'pib-sqlite3:rel/pib', 'pib-sqlite3:/abs/pib'],
                        'tpm': ['tpm-file:rel/tpm', 'tpm-file']}
@@ -285,7 +291,7 @@ HARNESSES = {'conf': h_conf, 'face': h_face}
 
 def cases(tier, seed):
     cs = [('conf', {}, {'weight': 100, 'split_depth': 6}), ('conf', {'warm': True}, {'weight': 30, 'split_depth': 5}),
-          ('conf', {'links': True}, {'weight': 30, 'split_depth': 5})]
+          ('conf', {'links': True}, {'weight': 30, 'split_depth': 5}), ('conf', {'odd': True}, {'weight': 30, 'split_depth': 5})]
     for i in range(len(URIS)):
         cs.append(('face', {'i': i}))
     if tier != 'quick':
